@@ -27,6 +27,12 @@ class SArr(np.ndarray):
     """object ndarray of SV; astype(float) is the identity; raw numbers stored into it are wrapped"""
 
     def astype(self, dtype, *a, **k):
+        if self.dtype == object and (dtype is complex or dtype is np.complex128):
+            from .cplx import SC
+            out = np.empty(self.shape, dtype=object)
+            for idx in np.ndindex(self.shape):
+                out[idx] = SC.of(self[idx])
+            return out.view(SArr)
         if self.dtype == object and (dtype is sym_float or dtype is _float or dtype is np.float64
                                      or dtype == np.dtype('float64')):
             return self.copy()
@@ -106,6 +112,13 @@ def oarr(x):
     """object ndarray view of anything array-like (numbers wrapped)"""
     if _isinstance(x, np.ndarray) and x.dtype == object:
         return x
+    if _isinstance(x, (complex, np.complexfloating)):
+        from .cplx import SC
+        a = np.empty((), dtype=object)
+        a[()] = SC(SV(_float(x.real)), SV(_float(x.imag)))
+        return a
+    if _isinstance(x, np.ndarray) and np.issubdtype(x.dtype, np.complexfloating):
+        return to_obj(x)
     if _isinstance(x, np.ndarray):
         return to_obj(x.astype(_float)) if x.dtype != bool else x
     if _isinstance(x, (SV,) + SC_TYPES):
@@ -602,6 +615,7 @@ _INSTALLED = {}
 
 
 def import_all_optiland():
+    from . import cplx  # noqa: registers SC with the façade
     import optiland
     for m in pkgutil.walk_packages(optiland.__path__, 'optiland.'):
         if '.visualization' in m.name or m.name.startswith('optiland.samples'):
